@@ -15,10 +15,18 @@
      symbols is a number only if the whole token is a numeric literal (`wholeNumber`);
    * `C08_quote_shorthand`: the shorthands expand to two-element lists headed by quote, quasiquote,
      unquote, unquote-splicing.
+  Builder API of `parse::Options` (LexprModel/Proofs/Builder.lean, imported here; tied to the code by the
+  `opts` operations: every chain of at most two builder calls from `new()`, `default()`, `elisp()`, and
+  random longer chains, observed through the getters AND through the reader's behaviour on one probe
+  token per option): `builder_frame` — a `with_*` call changes its own option and no other;
+  `builder_commute`, `builder_last_wins`, `builder_addKeyword` (accumulates), `builder_setKeywords`
+  (replaces), `builder_elisp`/`builder_default` (the presets are the documented chains),
+  `builder_reachable` (all 1536 option sets are reachable).
   Not covered by a closed-form theorem yet: sign-initial and non-ASCII-initial tokens, `#:`; those are
   carried by the exhaustive correspondence (token corpus x positions x all 1536 option sets).
 -/
 import LexprModel.Proofs.Tokens
+import LexprModel.Proofs.Builder
 namespace Lexpr
 namespace Parse
 
@@ -35,6 +43,15 @@ theorem C08_quote_names :
     Quote.quote.name = asc "quote" ∧ Quote.quasiquote.name = asc "quasiquote" ∧
     Quote.unquote.name = asc "unquote" ∧ Quote.unquoteSplicing.name = asc "unquote-splicing" := by
   refine ⟨rfl, rfl, rfl, rfl⟩
+
+/-- **C08_builder_frame**: setting one parser option through the builder API leaves every other
+    option as it was — the premise of "each option changes exactly the tokens it names". -/
+theorem C08_builder_frame (o : Options) (st : Setter) (f : Field) (h : f ≠ st.field) :
+    (o.set st).get f = o.get f := builder_frame o st f h
+
+/-- every parser option set the properties quantify over is constructible through the public API -/
+theorem C08_every_option_set (r : Options) : ∃ ops, Options.build Options.new ops = r :=
+  builder_reachable r
 
 end Parse
 end Lexpr
